@@ -24,7 +24,7 @@ import replay as RP  # noqa: E402
 
 TRUSTED_BASE = [
     'cbmc / goto-cc / goto-instrument 6.11.0: C front end (GCC mode, -std=gnu99), DFCC contract instrumentation, symbolic execution, bit-blasting',
-    'SAT back ends: MiniSat 2 (CBMC built-in) and kissat (external) for the two generic routines',
+    'SAT back end: kissat (external solver process fed by CBMC; the Kani 0.68 bundle build) for every obligation',
     'CPROVER library models of memcpy / memset / malloc',
     'spec/wire_spec.json and spec/vp_spec.h: the statement of intent (internally consistent; tied to the property wording by the meta-lemmas; not checked against the IEEE PDF)',
     'gcc -E for expanding loop-contract templates; python driver that names obligations and counts results',
@@ -110,12 +110,17 @@ def write_replay(pid, job, res, prs, workroot):
     os.makedirs(outdir, exist_ok=True)
     path = os.path.join(outdir, job.ident() + '.json')
     first = prs[0]
-    raw, err = vplib.trace_for(job, res, first.name)
-    wit = RP.parse_witness(raw)
-    native = RP.make_native(job, wit) if (wit or (job.replay and job.replay.get('kind') == 'null')) else None
-    reproduced, nout = (False, 'no native replay template for this obligation' if native is None else '')
-    if native is not None:
-        reproduced, nout = RP.run_native(native, job)
+    wit, native, err = {}, None, ''
+    reproduced, nout = False, ''
+    try:        # a problem in trace extraction / replay generation must never hide the violation itself
+        raw, err = vplib.trace_for(job, res, first.name)
+        wit = RP.parse_witness(raw)
+        native = RP.make_native(job, wit) if (wit or (job.replay and job.replay.get('kind') == 'null')) else None
+        nout = 'no native replay template for this obligation' if native is None else ''
+        if native is not None:
+            reproduced, nout = RP.run_native(native, job)
+    except Exception as e:
+        nout = 'replay generation failed: %r' % (e,)
     doc = {
         'property': pid,
         'obligation': job.name,
@@ -264,7 +269,7 @@ def cmd_check(pid, tier, seed):
         'functions_under_contract': sorted(funcs),
         'functions_under_contract_count': len(funcs),
         'obligations_by_class': per_class,
-        'back_end': 'CBMC 6.11.0 SAT (MiniSat 2; kissat for Avtp_GetField/Avtp_SetField)',
+        'back_end': 'CBMC 6.11.0 bit-blasting + kissat (--external-sat-solver)',
         'solver_seconds': round(solver_s, 1),
         'cpu_seconds_all_jobs': round(sum(r.wall for r in results), 1),
         'configurations': sorted(set(j.config for j in sel)),
